@@ -1992,7 +1992,16 @@ class Interp(object):
             elif int(k.shape[0]) != m:
                 raise SymRaise('IndexError', 'shape mismatch: indexing arrays could not be broadcast together')
             ks = k.snapshot(self.st)
-            idxs.append([ks((j,)) for j in range(m)])
+            n_d = a.shape[d]
+            col = []
+            for j in range(m):
+                v = ks((j,))
+                v = simp(v) if is_sym(v) else v
+                if not is_sym(v) or z3.is_int_value(v):
+                    iv = int(v.as_long()) if is_sym(v) else int(v)
+                    v = mk_add(n_d, iv) if iv < 0 else iv          # negative indices count from the end
+                col.append(v)
+            idxs.append(col)
         for d, k in enumerate(key):
             if d not in adv and not (isinstance(k, slice) and k.start is None and k.stop is None and k.step is None):
                 raise Unsupported('fancy indexing combined with partial slices / integers')
